@@ -188,7 +188,15 @@ fn build_pairs<'i>(input: &'i str, seq: &Seq) -> Pairs<'i, u8> {
 }
 
 fn pratt(t: &Table) -> PrattParser<u8> {
-    let mut p = PrattParser::new();
+    pratt_from(t, PrattParser::new())
+}
+
+/// The same table on a parser obtained from the `Default` entry point.
+fn pratt_default(t: &Table) -> PrattParser<u8> {
+    pratt_from(t, PrattParser::default())
+}
+
+fn pratt_from(t: &Table, mut p: PrattParser<u8>) -> PrattParser<u8> {
     let max = t.iter().map(|o| o.level).max().unwrap();
     for l in 1..=max {
         let mut chain: Option<Op<u8>> = None;
@@ -366,6 +374,7 @@ fn table_json(t: &Table) -> Value {
 
 fn check_table(t: &Table, k: usize, stats: &mut Stats) {
     let pp = pratt(t);
+    let ppd = pratt_default(t);
     let pc = climber(t);
     let mut pcc = const_climbers(t);
     let n_const = pcc.len();
@@ -386,6 +395,10 @@ fn check_table(t: &Table, k: usize, stats: &mut Stats) {
         };
         if got.as_deref() != Ok(want.as_str()) {
             report(stats, "pratt-differs", &got);
+        }
+        let gotd = catch(|| run_map!(ppd, build_pairs(&input, seq)));
+        if gotd.as_deref() != Ok(want.as_str()) {
+            report(stats, "pratt-from-default-differs", &gotd);
         }
         if gotc.as_deref() != Ok(want.as_str()) {
             report(stats, "const-pratt-differs", &gotc);
